@@ -176,7 +176,77 @@ func c16impl(c *core.Ctx, im *ssa.Function) {
 	// then read as the arguments of the `go` statement)
 	goOf := map[*ssa.Function]*ssa.Go{}
 	var targets []*ssa.Function
-	core.Instrs(im, func(ins ssa.Instruction) {
+	// the implementation may be split into unexported helpers that run only on its behalf (one call site each):
+	// the frames of the group are analysed together, values are identified across them by ipv
+	frames := []*ssa.Function{im}
+	inGroup := map[*ssa.Function]bool{im: true}
+	for changed := true; changed; {
+		changed = false
+		for _, h := range core.HelpersOf(p, []*ssa.Function{im}) {
+			if inGroup[h] || core.SingleSite(p, h) == nil {
+				continue
+			}
+			caller := core.SingleSite(p, h).Parent()
+			for caller.Parent() != nil {
+				caller = caller.Parent()
+			}
+			if inGroup[caller] {
+				inGroup[h], changed = true, true
+				frames = append(frames, h)
+			}
+		}
+	}
+	ipv := func(v ssa.Value) ssa.Value {
+		for i := 0; i < 8 && v != nil; i++ {
+			v = core.Resolve(v)
+			if prm, isP := v.(*ssa.Parameter); isP {
+				h := prm.Parent()
+				site := core.SingleSite(p, h)
+				if h == im || !inGroup[h] || site == nil {
+					return v
+				}
+				idx := -1
+				for k, q := range h.Params {
+					if q == prm {
+						idx = k
+					}
+				}
+				if idx < 0 || idx >= len(site.Call.Args) {
+					return v
+				}
+				v = site.Call.Args[idx]
+				continue
+			}
+			call, isC := v.(*ssa.Call)
+			if !isC {
+				return v
+			}
+			g := core.Callee(&call.Call)
+			if g == nil || !inGroup[g] || g.Signature.Results().Len() != 1 {
+				return v
+			}
+			var one ssa.Value
+			for _, rcase := range core.ReturnCases(g) {
+				r := core.Resolve(rcase.Vals[0])
+				if one == nil {
+					one = r
+				} else if one != r {
+					return v
+				}
+			}
+			if one == nil {
+				return v
+			}
+			v = one
+		}
+		return v
+	}
+	instrsFrames := func(fn func(ssa.Instruction)) {
+		for _, f := range frames {
+			core.Instrs(f, fn)
+		}
+	}
+	instrsFrames(func(ins ssa.Instruction) {
 		g, isG := ins.(*ssa.Go)
 		if !isG {
 			return
@@ -197,20 +267,20 @@ func c16impl(c *core.Ctx, im *ssa.Function) {
 		if prm, isP := core.Resolve(v).(*ssa.Parameter); isP && goOf[fn] != nil {
 			for i, q := range fn.Params {
 				if q == prm && i < len(goOf[fn].Call.Args) {
-					return core.Resolve(goOf[fn].Call.Args[i])
+					return ipv(goOf[fn].Call.Args[i])
 				}
 			}
 		}
-		if fn.Parent() == im {
-			return capturedBinding(im, fn, core.Path(v))
+		if fn.Parent() != nil && inGroup[fn.Parent()] {
+			return ipv(capturedBinding(fn.Parent(), fn, core.Path(v)))
 		}
 		return nil
 	}
 	// chanName identifies a channel used in fn by the value it denotes in the implementation's frame
 	chanName := func(fn *ssa.Function, v ssa.Value) string {
 		var d ssa.Value
-		if fn == im {
-			d = core.Resolve(v)
+		if inGroup[fn] {
+			d = ipv(v)
 		} else {
 			d = binding(fn, v)
 		}
@@ -255,7 +325,7 @@ func c16impl(c *core.Ctx, im *ssa.Function) {
 	c.Analysed(core.FuncName(producer), core.FuncName(workerFn), core.FuncName(closer))
 	// channels: the two MakeChan in im
 	var chans []*ssa.MakeChan
-	core.Instrs(im, func(ins ssa.Instruction) {
+	instrsFrames(func(ins ssa.Instruction) {
 		if mk, ok := ins.(*ssa.MakeChan); ok {
 			chans = append(chans, mk)
 		}
@@ -345,7 +415,7 @@ func c16impl(c *core.Ctx, im *ssa.Function) {
 		ok, detail := func() (bool, string) {
 			// spawn loop: go workerFn in a loop bounded by worker, preceded by wg.Add(1) in the same block
 			var goW *ssa.Go
-			core.Instrs(im, func(ins ssa.Instruction) {
+			instrsFrames(func(ins ssa.Instruction) {
 				if g, isG := ins.(*ssa.Go); isG && goOf[workerFn] == g {
 					goW = g
 				}
@@ -368,7 +438,7 @@ func c16impl(c *core.Ctx, im *ssa.Function) {
 			// loop bound: i < worker
 			bound := false
 			for _, m := range core.EdgeCmps(goW.Block()) {
-				if m.Op == token.LSS && m.Y == ssa.Value(worker) {
+				if m.Op == token.LSS && ipv(m.Y) == ssa.Value(worker) {
 					bound = true
 				}
 			}
@@ -411,9 +481,11 @@ func c16impl(c *core.Ctx, im *ssa.Function) {
 			}
 			nClose := 0
 			deep := func(fn func(*ssa.Function, ssa.Instruction)) {
-				core.InstrsDeep(im, fn)
+				for _, f := range frames {
+					core.InstrsDeep(f, fn)
+				}
 				for _, t := range targets {
-					if t.Parent() != im {
+					if t.Parent() == nil || !inGroup[t.Parent()] {
 						core.InstrsDeep(t, fn)
 					}
 				}
@@ -449,7 +521,7 @@ func c16impl(c *core.Ctx, im *ssa.Function) {
 				u, isU := ins.(*ssa.UnOp)
 				return isU && u.Op == token.ARROW && u.CommaOk && core.InLoop(u.Block())
 			}) {
-				if v, st := core.Up(fd.Ins.(*ssa.UnOp).X, fd.Stack); len(st) == 0 && chanName(im, v) == resName {
+				if chanName(im, fd.Ins.(*ssa.UnOp).X) == resName {
 					drain, drainStack = fd.Ins.(*ssa.UnOp), fd.Stack
 				}
 			}
@@ -489,10 +561,10 @@ func c16impl(c *core.Ctx, im *ssa.Function) {
 	// ---- R4 spawn loop bound by worker, both loops
 	{
 		ok := false
-		core.Instrs(im, func(ins ssa.Instruction) {
+		instrsFrames(func(ins ssa.Instruction) {
 			if g, isG := ins.(*ssa.Go); isG && core.InLoop(g.Block()) {
 				for _, m := range core.EdgeCmps(g.Block()) {
-					if m.Op == token.LSS && m.Y == ssa.Value(worker) && ascendingFromZero(m.X) {
+					if m.Op == token.LSS && ipv(m.Y) == ssa.Value(worker) && ascendingFromZero(m.X) {
 						ok = true
 					}
 				}
@@ -502,7 +574,7 @@ func c16impl(c *core.Ctx, im *ssa.Function) {
 	}
 	// ---- R1 ordered mode only (jobs are maps keyed by index)
 	if _, isMap := chans[0].Type().Underlying().(*types.Chan).Elem().Underlying().(*types.Map); isMap {
-		ok, detail := c16ordered(p, im, producer, workerFn, list, fParam)
+		ok, detail := c16ordered(p, im, producer, workerFn, list, fParam, binding)
 		c.Check(ok, "R1", name+"/index-round-trip", p.Pos(im.Pos()), detail, detail)
 	}
 }
@@ -524,7 +596,7 @@ func ascendingFromZero(v ssa.Value) bool {
 	return zero && inc
 }
 
-func c16ordered(p *core.Prog, im, producer, workerFn *ssa.Function, list, fParam *ssa.Parameter) (bool, string) {
+func c16ordered(p *core.Prog, im, producer, workerFn *ssa.Function, list, fParam *ssa.Parameter, binding func(*ssa.Function, ssa.Value) ssa.Value) (bool, string) {
 	// producer: map update key = range index of list, value = list[index]
 	okP := false
 	core.Instrs(producer, func(ins ssa.Instruction) {
@@ -537,7 +609,7 @@ func c16ordered(p *core.Prog, im, producer, workerFn *ssa.Function, list, fParam
 			return
 		}
 		ia, ok := ld.X.(*ssa.IndexAddr)
-		if ok && ia.Index == mu.Key && ascendingIndex(ia.Index) && capturedBinding(im, producer, core.Path(ia.X)) == ssa.Value(list) {
+		if ok && ia.Index == mu.Key && ascendingIndex(ia.Index) && binding(producer, ia.X) == ssa.Value(list) {
 			okP = true
 		}
 	})
@@ -582,25 +654,24 @@ func c16ordered(p *core.Prog, im, producer, workerFn *ssa.Function, list, fParam
 		okC1 = true
 		collected = append(collected, core.Origins(p, fd.Ins.(*ssa.MapUpdate).Map, fd.Stack)...)
 	}
-	core.Instrs(im, func(ins ssa.Instruction) {
+	for _, fd := range core.DeepFind(p, im, func(ins ssa.Instruction) bool {
 		x, isSt := ins.(*ssa.Store)
 		if !isSt {
-			return
+			return false
 		}
 		ia, isIA := x.Addr.(*ssa.IndexAddr)
 		lk, isLk := x.Val.(*ssa.Lookup)
-		if !isIA || !isLk || ia.Index != lk.Index || lk.CommaOk {
-			return
-		}
+		return isIA && isLk && ia.Index == lk.Index && !lk.CommaOk
+	}) {
 		// the map read is the map collected into
-		for _, src := range core.Origins(p, lk.X, nil) {
+		for _, src := range core.Origins(p, fd.Ins.(*ssa.Store).Val.(*ssa.Lookup).X, fd.Stack) {
 			for _, cl := range collected {
 				if src.Val == cl.Val {
 					okC2 = true
 				}
 			}
 		}
-	})
+	}
 	if !okC1 || !okC2 {
 		return false, "results are not re-assembled by index (collected under their key and slot i filled from key i): output order would follow arrival order"
 	}
